@@ -13,7 +13,7 @@ import (
 func init() {
 	register("C14", Meta{
 		Explanation: "Structural necessary conditions of 'votes aggregate only on identical events': (coverage) for every type implementing ExternalEvent, every proto field of the event (nonces, asset, amount, fee, sender, recipient, destination chain, external height, tx hash, fee paid, fee payer, members) reaches the bytes given to the hash function in Hash(); ContractCallExecutedEvent.ReturnData is excluded only while no module code reads it; (injective) the hashed byte string is an injective encoding of those fields: lossy encoders are rejected (common.Hex2Bytes on a string that may carry the 0x prefix yields an empty slice; BigInt().Bytes() drops the sign of a value that Validate does not force to be non-negative) and at most one variable-length part may be concatenated without a length delimiter; (key) the vote-record key is prefix|chain|nonce(8)|hash and the event body stored with the first vote is never replaced by a later vote.",
-		NotDecided: []string{"collision resistance of SHA-256", "a type tag inside the hash (no admissible colliding pair of different event types was found; recorded as advisory)"},
+		NotDecided:  []string{"collision resistance of SHA-256", "a type tag inside the hash (no admissible colliding pair of different event types was found; recorded as advisory)"},
 		Assumptions: append(append([]string{}, commonAssumptions...), "SHA-256 is collision resistant"),
 	}, checkC14)
 }
